@@ -289,7 +289,7 @@ func (g *tgen) node(ind int) (string, bool) {
 		switch g.r.intn(6) {
 		case 0:
 			g.note("call")
-			return "@leaf(" + g.r.pick([]string{"s", "t", `"x"`, "p.Name"}) + ")", true
+			return "@leaf(" + g.r.pick([]string{"s", "t", `"x"`, "p.Name", "func() string { return s }()", "func(a string) string {\n" + g.indent(ind+1) + "return a\n" + g.indent(ind) + "}(t)"}) + ")", true
 		case 1:
 			g.note("call-block")
 			return fmt.Sprintf("@wrap(%s) {\n%s\n%s}", g.r.pick([]string{"s", `"t"`}), g.body(ind+1, 1+g.r.intn(2)), g.indent(ind)), true
@@ -345,7 +345,10 @@ func (g *tgen) file() string {
 		if recv != "" {
 			sig = strings.Replace(tgenSig, ", p P", "", 1)
 		}
-		fmt.Fprintf(&sb, "templ %s%s(%s) {\n", recv, name, sig)
+		// spellings: extra blanks between the keyword, the receiver/name and the brace
+		kwGap := g.r.pick([]string{" ", " ", " ", "  ", "\t", "   "})
+		braceGap := g.r.pick([]string{" ", " ", " ", "  ", ""})
+		fmt.Fprintf(&sb, "templ%s%s%s(%s)%s{\n", kwGap, recv, name, sig, braceGap)
 		if i == 0 && g.r.chance(1, 8) {
 			sb.WriteString("\t<!DOCTYPE html>\n")
 			g.note("doctype")
